@@ -76,6 +76,8 @@ def gen_ops(rng, timed, tier):
         op.update(_target(rng))
         if op['agg'] in ('var', 'std'):
             op['ddof'] = rng.choice([1, 1, 0])
+        if op['agg'] not in ('size',) and rng.random() < 0.35:
+            op['wexpr'] = rng.choice(['neg', 'add', 'mul', 'rsub'])     # element-wise step on the Expanding object itself
         ops.append(op)
     for _ in range(3):
         op = {'fam': 'ewm', 'agg': 'mean', 'par': rng.choice([{'com': 0.5}, {'com': 1}, {'com': 3}, {'span': 3}, {'span': 5},
